@@ -10,7 +10,7 @@ from __future__ import annotations
 
 import itertools
 
-from vp.common.harness import Fail, call
+from vp.common.harness import GriffeRaised, Fail, call
 
 ID = "C10"
 LEVEL = "exploration"
@@ -637,8 +637,14 @@ def _enumerate_extra_renderings(ctx, sigs, shapes, select) -> None:
             for j in range(n):
                 if not select(i, j, rendering):
                     continue
-                om, nm = _extra_pair(rendering, texts[i], texts[j], cache)
-                br = griffe_breakages(om, nm)
+                case = {"space": "abc3", "render": rendering, "old": texts[i], "new": texts[j]}
+                try:
+                    om, nm = _extra_pair(rendering, texts[i], texts[j], cache)
+                    br = griffe_breakages(om, nm)
+                except GriffeRaised as gr:  # building the pair or diffing it raised inside Griffe: a failure of this case
+                    ctx.case(1 if i != j else None, (rendering + ":raised",), None, enumerated=True)
+                    ctx.fail(gr.fail, case)
+                    continue
                 if rendering == "api-built":
                     fails = [Fail(f.clause, f"{f.kind}[api-built]", "[new side built through the Parameters API] " + f.message, f.detail) for f in judge(sigs[i], sigs[j], masks[i], masks[j], br, shapes)]
                 else:
